@@ -16,6 +16,7 @@
   dispatched (the queue, plus the event the poller holds between its re-pop and `to_wake.take`).
 -/
 import MayVerif.Proof.Cqueue.Wake
+import MayVerif.Proof.Cqueue.WakeF25
 set_option linter.unusedSimpArgs false
 namespace MayVerif.Cqueue
 open Actor Env
@@ -323,3 +324,42 @@ theorem f16b_alone_tail_after_drop : ∃ sched,
    by decide⟩
 
 end MayVerif.Cqueue
+
+/-! ### F25 – one level below: the Park inside the poller's blocker (`Model/CqueueWake.lean`)
+
+  In `Model/Cqueue.lean` the poller's `Blocker` is an abstract token, so the wait of `Park::drop` (last `Arc<Blocker>`,
+  dropped by `EventSender::subscribe`) for the poller's own `Park::subscribe` frame is not visible there. The small model
+  `CqueueWake` has exactly that handshake: every interleaving of the sender's `subscribe` tail (take, `unpark` = swap +
+  `wait_co.take`, clear `wait_kernel`, drop the blocker), a coroutine poller entering its park (token already there /
+  `Park::subscribe` with `fast_wake_up` nesting / woken by the sender), the poller running the arm inside `poll()`, and
+  the arm spinning in `send`. It is not tied by replay (the Park events are noise of family `cqueue_co`, whose hang
+  oracle covers the real code); it says that the ORDER of the last two operations of `subscribe` decides. -/
+namespace MayVerif.CqueueWake
+
+/-- **`EventSender::subscribe` terminates** (order of /repo 960ad58: clear `wait_kernel`, then drop the blocker): in no
+    reachable state is the sender's `subscribe` unfinished while nobody can move – whenever it waits in `Park::drop` for
+    the poller's `Park::subscribe` frame, the poller, the arm or the frame has a step. Every step advances a program
+    counter (no loops in this model), so under a fair scheduler `subscribe` returns. -/
+theorem sender_subscribe_terminates (sched : List Actor) : stuck fixed (run fixed init sched) = false := by
+  have h := run_reachable init sched init_mem
+  have := List.all_eq_true.mp reachable_not_stuck _ h
+  simpa using this
+
+/-- **F25**: with the blocker dropped BEFORE `wait_kernel` is cleared, the following interleaving dead-locks: the poller
+    yields into `Park::subscribe`; the sender takes the blocker and sets the token; the poller's frame publishes the
+    poller, sees the token and resumes the poller in place (`fast_wake_up`); the sender's `wait_co.take` finds nothing;
+    the poller drops its `cur`, pops the event and runs the arm, which spins on the sender's `wait_kernel`; the sender's
+    `drop(w)` is now the last reference: `Park::drop` waits for the frame, the frame for the poller, the poller for the
+    arm, the arm for the sender. (The trace of family `cqueue_co` on the reverted tree shows exactly these events.) -/
+theorem reverted_f25_deadlock : ∃ sched, stuck reverted (run reverted init sched) = true :=
+  ⟨[.poller, .sender, .sender, .frame, .frame, .frame, .sender, .poller, .poller], by decide⟩
+
+-- the same schedule with the repaired order: the sender clears `wait_kernel`, the arm leaves `send`, the poller goes on,
+-- its frame returns, the sender's `Park::drop` gets through
+example : (run fixed init [.poller, .sender, .sender, .frame, .frame, .frame, .sender, .poller, .poller,
+    .sender, .arm, .poller, .poller, .sender]).spc = .done := by decide
+-- non-vacuity of the wait itself: a reachable state of the repaired order in which the sender waits inside `Park::drop`
+example : (step fixed (run fixed init [.poller, .sender, .sender, .frame, .frame, .frame, .sender, .poller, .poller, .sender]) .sender).isNone = true ∧
+    (run fixed init [.poller, .sender, .sender, .frame, .frame, .frame, .sender, .poller, .poller, .sender]).spc = .fin2 := by decide
+
+end MayVerif.CqueueWake
